@@ -120,6 +120,13 @@ func (obj *CategoricalEstimator) updateEstimate() error {
   for j := 0; j < len(sum_t); j++ {
     sum = LogAdd(sum, sum_t[j])
   }
+  // without any observation of positive weight the estimate is
+  // undefined (0/0), keep the current parameters
+  if math.IsInf(sum, -1) {
+    obj.sum_t = nil
+    obj.sum_c = nil
+    return nil
+  }
   for j := 0; j < len(sum_t); j++ {
     sum_t[j] = math.Exp(sum_t[j] - sum)
   }
